@@ -239,6 +239,13 @@ inline vegas_pdf<T> vegas_refine_pdf(vegas_pdf<T> const& pdf, T alpha, std::vect
         }
         average_per_bin /= bins;
 
+        // data whose sums over- or underflow make the importance function vanish or not-a-number;
+        // there is nothing to distribute then and the loop below must not run
+        if (!(average_per_bin > T()))
+        {
+            continue;
+        }
+
         T this_bin = T();
         std::size_t bin = 0;
 
